@@ -354,8 +354,9 @@ class LockHooks:
 def make_engine(repo, hooks=None):
     from pyvc.engine import Engine
     from .opaque_ext import EXTERNALS
+    # on_miss is an arbitrary callable: every call of it may also raise an exception of unknown class
     eng = Engine(repo, FILE, classes=CLASSES, contracts=CONTRACTS, consts=CONSTS, hooks=hooks or LockHooks(),
-                 externals=dict(EXTERNALS))
+                 externals=dict(EXTERNALS), opaque_may_raise=True)
     for c in ALL:
         eng.register_class(c)
     return eng
@@ -468,12 +469,22 @@ def getitem_raises(c):
             ] + wf_post(n)
 
 
+def onmiss_raised(c):
+    """an exception raised by on_miss itself passes through: the lookup still did not find the key"""
+    o, n = V(c, c.old), V(c)
+    return [('only a lookup of an absent key with on_miss set', z3.And(z3.Not(z3.Select(o.ddom, c.a('key'))), o.on_miss != NONE)),
+            ('counts a miss, view unchanged', z3.And(counters(o, n, miss=1), view_unchanged(o, n), n.clock == o.clock)),
+            ] + wf_post(n)
+
+
 VALRET = lambda c: SVal(c.st.fresh.const('ret', Val))  # noqa: E731
 getitem_lri = Contract('LRI.__getitem__', setup=S('key'), requires=lambda c: pub_requires(c, 'key'),
-                       ensures=getitem_ensures_for(False), raises={'KeyError': getitem_raises}, modifies=PUB_MOD,
+                       ensures=getitem_ensures_for(False), raises={'KeyError': getitem_raises, 'AnyException': onmiss_raised},
+                       modifies=PUB_MOD,
                        returns=VALRET, variants=['LRI'], local_types=dict(link=REF(Link)))
 getitem_lru = Contract('LRU.__getitem__', setup=S('key'), requires=lambda c: pub_requires(c, 'key'),
-                       ensures=getitem_ensures_for(True), raises={'KeyError': getitem_raises}, modifies=PUB_MOD,
+                       ensures=getitem_ensures_for(True), raises={'KeyError': getitem_raises, 'AnyException': onmiss_raised},
+                       modifies=PUB_MOD,
                        returns=VALRET, variants=['LRU'], local_types=dict(link=REF(Link)))
 getitem_lri.ghost_mod = getitem_lru.ghost_mod = ['t', 'clock', 'live']
 
@@ -590,9 +601,16 @@ def get_ensures_for(setdefault):
         out = wf_post(n)
         out.append(('hit: cached value, one hit', z3.Implies(hit, z3.And(c.r() == z3.Select(o.dval, key),
                                                                           counters(o, n, hit=1), hit_view))))
-        out.append(('miss with on_miss: its value is returned and cached, one (hard) miss',
-                    z3.Implies(z3.And(z3.Not(hit), has), z3.And(c.r() == missv, counters(o, n, miss=1),
-                                                                 *[f for _, f in setitem_effect(o, n, key, missv)]))))
+        # on_miss may itself raise; if what it raises is a KeyError, get()/setdefault() answer with the caller default
+        if setdefault:
+            dflt = z3.And(c.r() == default, counters(o, n, miss=1, soft=1), *[f for _, f in setitem_effect(o, n, key, default)])
+        else:
+            dflt = z3.And(c.r() == default, counters(o, n, miss=1, soft=1), view_unchanged(o, n), n.clock == o.clock)
+        out.append(('miss with on_miss: its value is returned and cached, one (hard) miss '
+                    '(or on_miss raised KeyError: caller default, one miss that is also a soft miss)',
+                    z3.Implies(z3.And(z3.Not(hit), has),
+                               z3.Or(z3.And(c.r() == missv, counters(o, n, miss=1), *[f for _, f in setitem_effect(o, n, key, missv)]),
+                                     dflt))))
         if setdefault:
             out.append(('miss without on_miss: default is returned and cached, one miss that is also a soft miss',
                         z3.Implies(z3.And(z3.Not(hit), z3.Not(has)), z3.And(
@@ -607,9 +625,10 @@ def get_ensures_for(setdefault):
 
 
 get = Contract('LRI.get', setup=get_setup, requires=lambda c: pub_requires(c, 'key'), ensures=get_ensures_for(False),
-               modifies=PUB_MOD, returns=VALRET, variants=['LRI', 'LRU'])
+               raises={'AnyException': onmiss_raised}, modifies=PUB_MOD, returns=VALRET, variants=['LRI', 'LRU'])
 setdefault = Contract('LRI.setdefault', setup=get_setup, requires=lambda c: pub_requires(c, 'key'),
-                      ensures=get_ensures_for(True), modifies=PUB_MOD, returns=VALRET, variants=['LRI', 'LRU'])
+                      ensures=get_ensures_for(True), raises={'AnyException': onmiss_raised}, modifies=PUB_MOD, returns=VALRET,
+                      variants=['LRI', 'LRU'])
 get.ghost_mod = setdefault.ghost_mod = ['t', 'clock', 'live']
 
 # ---- __len__ (takes the lock; also called by __setitem__ in the middle of its update, so it requires nothing) -----------------
